@@ -22,7 +22,7 @@ class Ctx:
 def main(argv):
     if len(argv) < 2:
         print("usage: check <Cxx> quick|thorough [--replay file]")
-        return 2
+        return 1
     prop = argv[1]
     tier = argv[2] if len(argv) > 2 and not argv[2].startswith("--") else os.environ.get("VERIF_TIER", "quick")
     if tier not in ("quick", "thorough"):
